@@ -18,6 +18,7 @@ import (
 	"verif/harness/ribx"
 	"verif/harness/sesshist"
 	"verif/report"
+	"verif/rt"
 
 	spb "github.com/openconfig/gribi/v1/proto/service"
 )
@@ -109,37 +110,42 @@ func Run(rep *report.Report, tier string) {
 			}
 		}
 	}
-	var wg sync.WaitGroup
 	var mu sync.Mutex
 	outcomes := map[string]int{}
-	ch := make(chan job)
-	for w := 0; w < 16; w++ {
-		wg.Add(1)
-		go func() {
-			defer wg.Done()
-			for j := range ch {
-				name := fmt.Sprintf("rib=%s target=%s election=%s learnt=%v", catalogue[j.ci].name, targets[j.ti].name, els[j.ei].name, learnt[j.li])
-				oc, fails := one(j.ci, targets[j.ti], els[j.ei], learnt[j.li])
-				mu.Lock()
-				outcomes[oc]++
-				mu.Unlock()
-				for _, f := range fails {
-					rep.Violate(f[0], name+": "+f[1], map[string]any{"case": name})
+	// both iteration orders of the RIB's maps: Flush removes entries, groups and next-hops in map order
+	for _, order := range []int{0, 1} {
+		rt.MapOrder = order
+		var wg sync.WaitGroup
+		ch := make(chan job)
+		for w := 0; w < 16; w++ {
+			wg.Add(1)
+			go func() {
+				defer wg.Done()
+				for j := range ch {
+					name := fmt.Sprintf("rib=%s target=%s election=%s learnt=%v map-order=%d", catalogue[j.ci].name, targets[j.ti].name, els[j.ei].name, learnt[j.li], order)
+					oc, fails := one(j.ci, targets[j.ti], els[j.ei], learnt[j.li])
+					mu.Lock()
+					outcomes[oc]++
+					mu.Unlock()
+					for _, f := range fails {
+						rep.Violate(f[0], name+": "+f[1], map[string]any{"case": name})
+					}
 				}
-			}
-		}()
+			}()
+		}
+		for _, j := range jobs {
+			ch <- j
+		}
+		close(ch)
+		wg.Wait()
 	}
-	for _, j := range jobs {
-		ch <- j
-	}
-	close(ch)
-	wg.Wait()
-	rep.Set("states", len(jobs))
-	rep.Set("transitions", len(jobs))
-	rep.Set("traces_validated_against_impl", len(jobs))
-	rep.Set("evaluations", len(jobs))
-	rep.Set("distinct_nontrivial", len(jobs))
-	rep.Set("rule", "every (RIB of the catalogue, Flush target, election field, learnt election id) tuple is one case, all distinct by construction; each runs on a fresh real server")
+	rt.MapOrder = 0
+	rep.Set("states", 2*len(jobs))
+	rep.Set("transitions", 2*len(jobs))
+	rep.Set("traces_validated_against_impl", 2*len(jobs))
+	rep.Set("evaluations", 2*len(jobs))
+	rep.Set("distinct_nontrivial", 2*len(jobs))
+	rep.Set("rule", "every (RIB of the catalogue, Flush target, election field, learnt election id, map iteration order) tuple is one case, all distinct by construction; each runs on a fresh real server")
 	rep.Set("exhaustive", true)
 	rep.Set("distinct_outcomes", outcomes)
 	rep.Set("dimensions", map[string]int{"ribs": len(catalogue), "targets": len(targets), "election_fields": len(els), "learnt_ids": len(learnt)})
